@@ -158,7 +158,7 @@ func c16Footgen(r *vh.Rand, valid bool) fs.VerifIndexFootprint {
 		np = r.Range(4, 12)
 	}
 	for i := 0; i < np; i++ {
-		var p fs.VerifPage
+		var p fs.VerifIndexPage
 		p.Ref = uint16(r.Intn(65536))
 		for j := range p.Set {
 			switch r.Intn(3) {
@@ -216,7 +216,7 @@ func c16SmallIndex(r *vh.Rand, variant int) fs.VerifIndex {
 	fp := func(file, family string, pages, scripts int) fs.VerifIndexFootprint {
 		f := fs.VerifIndexFootprint{File: file, Family: family, Style: 1, Weight: math.Float32bits(400), Stretch: math.Float32bits(1)}
 		for i := 0; i < pages; i++ {
-			f.Runes = append(f.Runes, fs.VerifPage{Ref: uint16(i * 3), Set: [8]uint32{r.Uint32(), 0, 0xffffffff, 1, 2, 3, 4, 5}})
+			f.Runes = append(f.Runes, fs.VerifIndexPage{Ref: uint16(i * 3), Set: [8]uint32{r.Uint32(), 0, 0xffffffff, 1, 2, 3, 4, 5}})
 		}
 		for i := 0; i < scripts; i++ {
 			f.Scripts = append(f.Scripts, uint32(0x4c61746e+i))
@@ -265,7 +265,7 @@ func c16CodecGen(r *vh.Rand, tier string, n int, emit func(any)) {
 		emit(c16CodecInput{Mode: 0, Index: one(func(fp *fs.VerifIndexFootprint, _ *fs.VerifFile) {
 			fp.Runes = nil
 			for i := 0; i < np; i++ {
-				fp.Runes = append(fp.Runes, fs.VerifPage{Ref: uint16(i), Set: [8]uint32{uint32(i), 0, 0, 0, 0, 0, 0, 0xffffffff}})
+				fp.Runes = append(fp.Runes, fs.VerifIndexPage{Ref: uint16(i), Set: [8]uint32{uint32(i), 0, 0, 0, 0, 0, 0, 0xffffffff}})
 			}
 		})})
 	}
